@@ -75,7 +75,61 @@ def gen(rng, max_n=8, p_sel=0.3, p_fail=0.06, mixed=True):
               script=dict(seed=rng.randrange(1 << 30)))
     if rng.random() < p_sel:
         sc["sel"] = gen_sel(rng, sc)
+    if rng.random() < 0.25:
+        # reconfigure between build and run (dict / json / yaml file / plain attribute assignment)
+        rc = dict(how=rng.choice(["dict", "dict", "json", "yaml", "attr"]), maxc=None, nodes={})
+        if rng.random() < 0.7:
+            rc["maxc"] = rng.randint(1, 4)
+        if rc["how"] != "attr":
+            for i in rng.sample(range(n), min(n, rng.randint(0, 2))):
+                rc["nodes"][str(i)] = dict(priority=rng.choice([0, 4, -2, 7]), is_sequential=rng.random() < 0.3)
+        if rc["maxc"] is not None or rc["nodes"]:
+            sc["reconf"] = rc
     return sc
+
+
+def effective(sc):
+    """The scenario as it is executed: build-time attributes overridden by the reconfiguration, if any."""
+    rc = sc.get("reconf")
+    if not rc:
+        return sc
+    eff = dict(sc)
+    eff["specs"] = [dict(s) for s in sc["specs"]]
+    for i, conf in rc["nodes"].items():
+        eff["specs"][int(i)]["prio"] = conf["priority"]
+        eff["specs"][int(i)]["seq"] = conf["is_sequential"]
+    if rc["maxc"] is not None:
+        eff["maxc"] = rc["maxc"]
+    return eff
+
+
+def apply_reconf(d, rc):
+    import json as _json
+    import os as _os
+    import tempfile as _tmp
+    conf = {}
+    if rc["nodes"]:
+        conf["nodes"] = {"n%s" % i: dict(c) for i, c in rc["nodes"].items()}
+    if rc["maxc"] is not None:
+        conf["max_concurrency"] = rc["maxc"]
+    how = rc["how"]
+    if how == "attr":
+        d.max_concurrency = rc["maxc"]
+    elif how == "dict":
+        d.config_from_dict(conf)
+    else:
+        fd, path = _tmp.mkstemp(suffix="." + how, prefix="twzconf")
+        _os.close(fd)
+        try:
+            with open(path, "w") as f:
+                if how == "json":
+                    _json.dump(conf, f)
+                else:
+                    import yaml
+                    yaml.safe_dump(conf, f)
+            (d.config_from_json if how == "json" else d.config_from_yaml)(path)
+        finally:
+            _os.remove(path)
 
 
 def all_preds(s):
@@ -152,7 +206,11 @@ def make_node(i, s):
         return value(i, s, args)
 
     body.__name__ = body.__qualname__ = "n%d" % i
-    return xn(body, priority=s["prio"], is_sequential=s["seq"], resource=RES[s["res"]])
+    node = xn(body, priority=s["prio"], is_sequential=s["seq"], resource=RES[s["res"]])
+    # from here on the node id ("n<i>") and the wrapped function's name differ, as they do for a function
+    # used at several call sites ("f<<1>>") or inside a nested DAG ("inner.f"): messages must name the NODE
+    body.__qualname__ = "impl_of_node_%d" % i
+    return node
 
 
 def build(sc):
@@ -204,6 +262,8 @@ def ids(l):
 def run_scenario(sc, timeout=40):
     """Build and run one scenario on the real code.  Returns a dict with everything observed."""
     d = build(sc)
+    if sc.get("reconf"):
+        apply_reconf(d, sc["reconf"])
     sel = sc.get("sel")
     if sel is None:
         graph_nodes = None
@@ -241,6 +301,7 @@ def failing_node_of(exc):
 
 def emit(sid, sc, obs, cp_mode="real", strict_exc=False):
     """Scenario + observed trace as a block for Drivers/Sched.lean; returns (text, index map)."""
+    sc = effective(sc)
     R, outcome, selected = obs["run"], obs["outcome"], obs["selected"]
     sel_nodes = sorted(selected)
     pos = {n: k for k, n in enumerate(sel_nodes)}
@@ -262,6 +323,9 @@ def emit(sid, sc, obs, cp_mode="real", strict_exc=False):
         elif k == "enter" and e[3] is None:
             out.append("I %s" % (pos[e[2]] if e[2] in pos else 999))
         elif k == "wait":
+            if len(e) > 6 and e[6] == "timeout":
+                out.append("W %s %s" % ("c" if e[2] == "conc" else "a", "F" if e[3] == "FIRST_COMPLETED" else "A"))
+                continue   # a wait that returned with nothing finished: no step of the model matches (empty set)
             if not e[4]:
                 continue   # wait on an empty set is a silent step of the model
             rel = [tnode[t] for t in e[5]]
@@ -289,6 +353,7 @@ def emit(sid, sc, obs, cp_mode="real", strict_exc=False):
 # ---------------------------------------------------------------------------------------------
 def monitors(sc, obs):
     """Returns (violations, facts): violations = list of (property, signature, detail)."""
+    sc = effective(sc)
     R, outcome, selected = obs["run"], obs["outcome"], obs["selected"]
     specs, maxc = sc["specs"], sc["maxc"]
     g = nxgraph(sc)
